@@ -163,6 +163,10 @@ class C11(Check):
             f = exp["sibling"]
             ws = {"files": [x for x in exp["world_spec"]["files"] if x["path"] == f]}
             world1, meta1 = W.build_world(ws)
+            # same arguments as the full run: every result-file option stays (with only this file's findings), otherwise the
+            # sub-world would also change the eligibility mode (SAST mode is switched on by --sonar-issues-json / --sarif)
+            for kind in meta["findings"]:
+                meta1["findings"].setdefault(kind, [])
             argv, results = build_argv(exp, meta1, None)
             world1["results"] = results
             specs.append({"name": "sibling", "world": world1, "argv": argv, "hashseed": 0,
